@@ -95,6 +95,13 @@ def expected_formats(parinfo):
             elif k == 'color': f.add('css:color:' + (v or ''))
         # (text that follows a NESTED run — the runs of a phonetic guide, w:ruby — inside its run: known finding)
         nested_before = src.ptag(run) == 'w:r' and any(src.ptag(d) == 'w:r' for sib in x.itersiblings(preceding=True) for d in sib.iter())
+        if src.ptag(run) == 'w:r' and not nested_before:
+            # ... also when the nested run sits in a PRECEDING run of the same paragraph that merge_elems may join with this one
+            # (adjacent runs with equal recognised formatting become one run: C06); only runs and markup may lie in between
+            for sib in run.itersiblings(preceding=True):
+                if src.ptag(sib) == 'w:r':
+                    if any(src.ptag(d) == 'w:r' for k in sib for d in k.iter()): nested_before = True; break
+                elif src.ptag(sib) in ('w:hyperlink', 'w:sdt', 'w:ins', 'w:moveTo', 'w:moveFrom', 'w:smartTag', 'w:fldSimple', 'w:dir', 'w:bdo', 'w:customXml', 'm:oMath', 'm:oMathPara'): break
         for tok in src.TOKEN.findall(x.text):
             res[tok] = frozenset(f)
             if nested_before: AFTER_NESTED_RUN.add(tok)
